@@ -12,7 +12,7 @@ import (
 func init() {
 	register(&Property{
 		ID:        "C07",
-		Technique: "who-may-call / who-may-use over the resolved program (single writer, single reader, single goroutine start), composite-literal provenance of frames, plus the shared lockset/typestate rules",
+		Technique: "who-may-call / who-may-use over the resolved program (single writer, single reader, single goroutine start), composite-literal provenance of frames, plus the shared lockset/typestate rules; tested-then-dropped error (contradiction) check and interprocedural lock-pairing check over the packages the property is anchored in",
 		Explanation: "Structural conditions of 'bytes on the transport form a valid, non-interleaved frame stream': " +
 			"(R1) the transport is written only through the frame writer's sink, read only through Reader.read, closed only in Manager.terminate; the reader and stream-manager goroutines are each started exactly once; ReadPacketUsing has one caller; " +
 			"(R2) frames with a stream's id are constructed only in newFrameLocked, terminal packets are single done frames, all frames of one message reuse one Frame value (one kind, one id); " +
